@@ -301,8 +301,11 @@ pub(crate) fn quote<'a>(s: &'a str, options: &QuoteOptions) -> Cow<'a, str> {
         return ansi_c_quote(s).into();
     }
 
-    let use_default_quotes =
-        !use_ansi_c_quotes && (options.always_quote || s.is_empty() || s.contains(needs_escaping));
+    let use_default_quotes = !use_ansi_c_quotes
+        && (options.always_quote
+            || s.is_empty()
+            || s.contains(needs_escaping)
+            || s.starts_with(needs_escaping_at_start));
 
     if !use_default_quotes {
         return s.into();
@@ -351,12 +354,12 @@ fn backslash_escape(s: &str) -> Cow<'_, str> {
     if s.is_empty() {
         // An empty string must be represented as '' to be a valid shell word.
         Cow::Owned("''".to_string())
-    } else if !s.chars().any(needs_escaping) {
+    } else if !s.chars().any(needs_escaping) && !s.starts_with(needs_escaping_at_start) {
         Cow::Borrowed(s)
     } else {
         let mut output = String::with_capacity(s.len());
-        for c in s.chars() {
-            if needs_escaping(c) {
+        for (i, c) in s.chars().enumerate() {
+            if needs_escaping(c) || (i == 0 && needs_escaping_at_start(c)) {
                 output.push('\\');
             }
             output.push(c);
@@ -468,6 +471,12 @@ const fn needs_escaping(c: char) -> bool {
             | ' '
             | '\''
     )
+}
+
+// Returns whether or not the given character needs to be escaped (or quoted) when it is the
+// first character of a word: a tilde would be expanded, a hash sign would start a comment.
+const fn needs_escaping_at_start(c: char) -> bool {
+    matches!(c, '~' | '#')
 }
 
 const fn needs_ansi_c_quoting(c: char) -> bool {
